@@ -229,7 +229,7 @@ _u4('C17', 'Unbounded proof: on every exit of prune / cleanup_temporary_director
     'mtime is strictly more than the age limit (proved to be 3600 s from the crate constant) before the run; directories are never removed; inodes of other '
     'files are untouched. unlink is only ever called on private files, cache-namespace files or .kismet_temp children (stub precondition).',
     replayer=_native('c17', [], []), thorough=_thorough_native('C17', 'c17', [], 'real prune / set on populated directories with dot files, subdirectories and temp files on both sides of the limit'),
-    not_covered=['that every stale temporary file IS removed (completeness of cleanup) is not claimed', SHARD_NC])
+    not_covered=[SHARD_NC])
 _u4('C16', 'Unbounded proof: validate_file_name accepts exactly the names whose first byte is not one of . / \\ and that contain no /, with InvalidInput otherwise; '
     'CacheDir::{get,touch,set,put} and the plain::Cache wrappers return that error with the World completely unchanged; for accepted names every effect is confined '
     'to child(base, name) (write_frame / lookup frame), and rename/link/unlink/utimens/mkdir stubs require their target to be a cache-namespace path, a .kismet_temp '
@@ -243,8 +243,11 @@ _u4('C09', 'Unbounded proof for every timestamp granularity in [1 ns, 2 s] and e
 _u4('C02', 'Unbounded proof of the crash invariant at every call boundary: every POSIX stub requires and re-establishes World.valid (whatever is visible under a key name '
     'is read-only and holds bytes supplied for that key), rename/link require the publish guarantee (private, read-only, stamped, synced if required, supplied for that key), '
     'and every function under contract ensures valid on every exit including errors; only cache directories and .kismet_temp are ever created; stale temp files are the only '
-    'temp files ever removed.',
-    not_covered=['debris older than the limit is eventually removed (completeness)', 'removal of our own temporary files on error paths is Drop of NamedTempFile / TempPath, invisible to contracts', SHARD_NC, STACK_NC])
+    'temp files ever removed; a maintenance run in which no call fails leaves no file in .kismet_temp older than the age limit (no_stale_temp: loop invariant over the complete '
+    'directory listing, readdir completeness assumed).',
+    not_covered=['removal of our own temporary files on error paths is Drop of NamedTempFile / TempPath, invisible to contracts',
+                 'completeness of temp-file cleanup is proved for cleanup_temporary_directory, CacheDir::{cleanup_temp_directory, definitely_cleanup, maintain} (plain directories and single shards); '
+                 'the sharded front-end only cleans the shard it maintains'])
 _u4('C18', 'Unbounded proof with failure enabled at every POSIX stub (any call may fail, any number of them): every operation ensures valid on every exit, Ok implies its effect '
     '(success-means-bound, exact effects when no fault occurred), errors are explained (invalid name, absent source, or a counted hard fault) and panic-freedom '
     '(assert!/expect/unwrap/arithmetics are proof obligations).',
